@@ -127,22 +127,8 @@ func (self AnalyzedBoolLiteralExpression) Constant() bool    { return true }
 // String literal
 //
 
-// TODO: add more escapes
 func escapeHmsString(input string) string {
-	output := input
-
-	escapes := map[string]string{
-		"\n": "\\n",
-		"\"": "\\\"",
-		"\t": "\\n",
-	}
-
-	for from, to := range escapes {
-		output = strings.ReplaceAll(output, from, to)
-	}
-
-	return output
-
+	return ast.EscapeString(input)
 }
 
 type AnalyzedStringLiteralExpression struct {
@@ -329,7 +315,7 @@ type AnalyzedObjectLiteralField struct {
 func (self AnalyzedObjectLiteralField) String() string {
 	var key string
 	if !util.IsIdent(self.Key.Ident()) {
-		key = fmt.Sprintf("\"%s\"", self.Key.Ident())
+		key = fmt.Sprintf("\"%s\"", escapeHmsString(self.Key.Ident()))
 	} else {
 		key = self.Key.Ident()
 	}
